@@ -281,6 +281,72 @@ def verdict (c : Cats) (t : Translated) : Verdict :=
   else if !(t.args.all (·.closed)) then .freeSymbol
   else .accept
 
+/-! ## Simplification passes that substitute symbols (`Model._substitute_delay_arguments`)
+
+`detect_aliases`, `eliminable_variable_expression`, `replace_parameter_values`,
+`replace_constant_values` (and the `*_expressions` variants) all end with
+`self.delay_arguments = self._substitute_delay_arguments(self.delay_arguments, symbols, values)`,
+which substitutes in the delayed expressions *and* in the durations; the substituted variables
+leave the variable lists of the model. -/
+
+/-- `ca.substitute(e, symbols, values)` for scalar symbols. -/
+def substRef (σ : String → Option Expr) : Expr → Expr
+  | .lit q => .lit q
+  | .time => .time
+  | .ref n => (σ n).getD (.ref n)
+  | .idx n i => .idx n (substRef σ i)
+  | .der n => .der n
+  | .derAt n i => .derAt n (substRef σ i)
+  | .neg e => .neg (substRef σ e)
+  | .bin o a b => .bin o (substRef σ a) (substRef σ b)
+  | .delay id a d => .delay id (substRef σ a) (substRef σ d)
+  | .dsym k => .dsym k
+  | .dsymAt k i => .dsymAt k (substRef σ i)
+
+def substArg (σ : String → Option Expr) (a : DArg) : DArg :=
+  { a with exprs := a.exprs.map (substRef σ), dur := substRef σ a.dur, raw := substRef σ a.raw }
+
+def substArgs (σ : String → Option Expr) (args : List DArg) : List DArg := args.map (substArg σ)
+
+/-- The category table after the substituted variables were removed from the model's lists. -/
+def Cats.remove (c : Cats) (gone : String → Bool) : Cats :=
+  { cat := fun n => if gone n then none else c.cat n, fixed := c.fixed }
+
+/-- A model after a substituting simplification pass. -/
+def Translated.simplify (t : Translated) (σ : String → Option Expr) : Translated :=
+  { t with args := substArgs σ t.args }
+
+/-! ## `transfer_model` with `cache=True` as a state machine
+
+`try: return load_model(...) except (FileNotFoundError, InvalidCacheError): model =
+_compile_model(...) ; save_model(...) ; return model` — `_compile_model` ends with
+`model._post_checks()`, so a rejected model never reaches `save_model`. -/
+
+/-- Outcome of a call: the model is returned, or an exception leaves `transfer_model`. -/
+inductive CallResult where
+  | returned
+  | raised
+  deriving DecidableEq, Repr
+
+/-- One call on a folder whose source compiles with outcome `compile`; state = "a valid cache
+    file exists". -/
+def transferCall (compile : CallResult) (cacheFile : Bool) : CallResult × Bool :=
+  if cacheFile then (.returned, true)
+  else match compile with
+    | .returned => (.returned, true)
+    | .raised => (.raised, false)
+
+/-- Results of `n` successive calls. -/
+def transferCalls (compile : CallResult) : Nat → Bool → List CallResult
+  | 0, _ => []
+  | n + 1, f => (transferCall compile f).1 :: transferCalls compile n (transferCall compile f).2
+
+def compileResult : Verdict → CallResult
+  | .assertionError => .raised
+  | .reject => .raised
+  | .freeSymbol => .returned
+  | .accept => .returned
+
 /-! ## Evaluation at exact points -/
 
 structure Env where
